@@ -1624,6 +1624,8 @@ class Interp:
             return list(v.keys())
         if isinstance(v, np.ndarray):
             return [v[i] for i in range(v.shape[0])]
+        if isinstance(v, ClassVal) and v.kind in ("enum", "intenum"):
+            return list(v.members.values())
         if isinstance(v, Record):
             it = v.cls.find_method("__iter__") if v.cls is not None else None
             if it is not None:
